@@ -1,5 +1,6 @@
 import Cpppo.Proofs.History
 import Cpppo.Proofs.Natural
+import Cpppo.Generated.Tables
 
 /-!
 # C18 — History replay delivers every logged record exactly once, in order, on time
@@ -316,5 +317,20 @@ theorem equal_boundary_loses_a_file :
       [⟨990, none, none⟩, ⟨1000, none, none⟩, ⟨1010, none, none⟩, ⟨1020, none, none⟩, ⟨1030, none, none⟩,
        ⟨1040, none, none⟩] {})
     = [(1000, [(40001, 1)]), (1020, [(40001, 4)]), (1030, [(40001, 5)])] := by decide +kernel
+
+/-! ### Tie to the constants extracted from the live source -/
+
+def stateNo (name : String) : Nat := ((Generated.loaderStates.find? (·.1 == name)).map (·.2)).getD 99
+
+/-- the numbering the model's state tests rely on: `while state <= STREAMING` means INITIAL, SWITCHING
+or STREAMING; `not self` (`state >= COMPLETE`) means COMPLETE or FAILED; `after = state != INITIAL` -/
+theorem loader_state_numbering :
+    (Generated.loaderStates.filter (·.2 ≤ stateNo "STREAMING")).map (·.1) = ["INITIAL", "SWITCHING", "STREAMING"] ∧
+    (Generated.loaderStates.filter (stateNo "COMPLETE" ≤ ·.2)).map (·.1) = ["COMPLETE", "FAILED"] ∧
+    (Generated.loaderStates.map (·.2)).Nodup := by decide
+
+/-- the smallest tick used by the harness (2 ms) exceeds the comparison tolerance of `timestamp`, and
+timestamps are written with millisecond precision -/
+theorem tick_exceeds_tolerance : Generated.historyEpsilonUs < 2000 ∧ Generated.historyPrecision = 3 := by decide
 
 end Cpppo.History
